@@ -224,7 +224,7 @@ func mkBin(op string, a, b *Term) *Term {
 	if op == "==" || op == "!=" {
 		nonNil := func(t *Term) bool {
 			switch t.Op {
-			case "mkchan", "mkmap", "mkslice", "alloc", "closure", "fn":
+			case "mkchan", "mkmap", "mkslice", "alloc", "closure", "fn", "typednil":
 				return true
 			}
 			return false
